@@ -1,6 +1,6 @@
 (* A store with strictly ascending keys (what RocksDB holds and the harness hands over:
    Model/Store.sorted_keys, decidable) stores every key once. *)
-From DnsV Require Import Base.Bytes Model.Store Proofs.BytesOrder Proofs.Compile Proofs.Ctx.
+From DnsV Require Import Base.Bytes Model.Store Proofs.BytesOrder Proofs.Store Proofs.Compile Proofs.Ctx.
 Open Scope N_scope.
 
 Lemma sorted_head_lt : forall (t : store) k v, sorted_keys ((k, v) :: t) = true ->
@@ -27,4 +27,10 @@ Proof.
     exfalso. exact (klt_irrefl k (sorted_head_lt t k v0 H k v Hin)).
   - destruct Hin as [Hin|Hin]; [inversion Hin; subst; rewrite bytes_eqb_refl in E; discriminate|].
     apply (IH (sorted_tail t k0 v0 H)). exact Hin.
+Qed.
+
+Lemma seek_prev_sound : forall s probe k v,
+  seek_prev s probe = Some (k, v) -> In (k, v) s /\ bleb k probe = true.
+Proof.
+  intros s probe k v H. split; [exact (Proofs.Store.seek_prev_in s probe k v H) | exact (Proofs.Store.seek_prev_le s probe k v H)].
 Qed.
